@@ -106,8 +106,41 @@ def _tracked_flags(ctx: Ctx, fi: FuncInfo, option_fields: list[str]) -> tuple[di
     return out, table_node
 
 
+def _fields_comprehension(ctx: Ctx, fi: FuncInfo, e: ast.AST) -> ast.AST:
+    """`[f.name for f in fields(Cls)]` over a dataclass of the package, written out as the list of its field names
+    (`{f.name: f.name for f in fields(Cls)}` as the dict)."""
+    if isinstance(e, ast.Call) and isinstance(e.func, ast.Name) and e.func.id in ("list", "tuple", "set", "frozenset", "sorted") and len(e.args) == 1:
+        e = e.args[0]
+    if not (isinstance(e, (ast.ListComp, ast.SetComp, ast.GeneratorExp, ast.DictComp)) and len(e.generators) == 1 and not e.generators[0].ifs):
+        return e
+    g = e.generators[0]
+    it = g.iter
+    if not (isinstance(g.target, ast.Name) and isinstance(it, ast.Call) and len(it.args) == 1 and not it.keywords
+            and norm(it.func) in ("fields", "dataclasses.fields")):
+        return e
+    ci = ctx.repo.resolve_expr(it.args[0], fi.module, fi) if isinstance(it.args[0], (ast.Name, ast.Attribute)) else None
+    if not isinstance(ci, ClassInfo):
+        return e
+
+    def is_name(x: ast.AST) -> bool:
+        return isinstance(x, ast.Attribute) and x.attr == "name" and isinstance(x.value, ast.Name) and x.value.id == g.target.id
+
+    names = [ast.Constant(value=f) for f in dataclass_fields(ci)]
+    if isinstance(e, ast.DictComp):
+        if is_name(e.key) and is_name(e.value):
+            return ast.copy_location(ast.Dict(keys=list(names), values=list(names)), e)
+        return e
+    if is_name(e.elt):
+        return ast.copy_location(ast.List(elts=names, ctx=ast.Load()), e)
+    return e
+
+
 def _table_literal(ctx: Ctx, fi: FuncInfo, flow, table_expr: ast.AST, at: Node) -> ast.AST:
     """The literal behind the explicit-flag table: written in place, bound to a local, or a module-level constant."""
+    return _fields_comprehension(ctx, fi, _table_literal0(ctx, fi, flow, table_expr, at))
+
+
+def _table_literal0(ctx: Ctx, fi: FuncInfo, flow, table_expr: ast.AST, at: Node) -> ast.AST:
     if not isinstance(table_expr, ast.Name):
         return table_expr
     defs = flow.reaching(at, table_expr.id)
@@ -198,6 +231,8 @@ def check_config(ctx: Ctx) -> None:
                    f"`{dest}` -> `{f}` or an explicitly passed flag loses against the config file (found: {tracked.get(dest)!r})",
                    where(pa, tnode))
     for dest, f in tracked.items():
+        if dest not in main_dests and dest not in sent_dests and f == dest and f in cfg_fields and f not in field_dest:
+            continue  # a config-only setting listed for completeness: no parser can ever supply it, the entry is inert
         ok = dest in main_dests and f in opt_fields and field_dest.get(f, (None, False))[0] == dest
         ctx.ob("R-CONFIG-K2", f"{pa.qual} :: table entry {dest}->{f}", ok,
                f"table entry must name an argparse dest of the main parser and the Options field that is read from it "
@@ -208,6 +243,10 @@ def check_config(ctx: Ctx) -> None:
         m: ArgSpec | None = main_dests.get(dest)
         s: ArgSpec | None = sent_dests.get(dest)
         key = f"{pa.qual} :: sentinel parser dest={dest}"
+        if m is None and s is None:
+            # a tracked name no parser declares (a config-only setting in a table derived from the config fields): it can
+            # never be seen as explicit, which is what K2 wants for it - nothing to compare
+            continue
         if m is None or s is None:
             ctx.ob("R-CONFIG-K3", key, False, f"dest `{dest}` must be declared in both parsers (main: {m is not None}, sentinel: {s is not None})",
                    where(pa, tnode))
